@@ -66,8 +66,8 @@ func genC17(t *rapid.T) c17Case {
 		c.H.Txs[i].Batch = false
 	}
 	c.Split = rapid.IntRange(0, len(c.H.Txs)).Draw(t, "split")
-	c.SnapMode = []string{"file", "file-in-tx", "stream"}[rapid.IntRange(0, 2).Draw(t, "snapMode")]
-	c.RestoreMode = []string{"bytes", "reader", "reader-data-with-eof"}[rapid.IntRange(0, 2).Draw(t, "restoreMode")]
+	c.SnapMode = []string{"file", "file-in-tx", "stream", "file-template"}[rapid.IntRange(0, 3).Draw(t, "snapMode")]
+	c.RestoreMode = []string{"bytes", "reader", "reader-data-with-eof", "reader-after-header", "os-file"}[rapid.IntRange(0, 4).Draw(t, "restoreMode")]
 	c.SkipTimeline = rapid.IntRange(0, 2).Draw(t, "skipTimeline") == 0
 	c.HoldListener = rapid.IntRange(0, 2).Draw(t, "holdListener") == 0
 	c.WriteDuringSnapshotTx = rapid.Bool().Draw(t, "writeDuringSnapshotTx")
@@ -98,6 +98,19 @@ func takeSnapshot(w *kit.World, mode string) (data []byte, id string, err error)
 			return nil, "", err
 		}
 		data, err = os.ReadFile(actual)
+		return
+	case "file-template":
+		// the path is given as a template; the file that was written is the one the call reports
+		var actual string
+		actual, id, err = w.Z.Db.Snapshot("__DB_DIR__/tpl-__DATE__-__TIME__-__DB_FILE__.snap")
+		if err != nil {
+			return nil, "", err
+		}
+		if filepath.Dir(actual) != w.Z.Dir || strings.Contains(actual, "__") {
+			return nil, "", fmt.Errorf("Snapshot with a path template reports the file %q (database directory %q)", actual, w.Z.Dir)
+		}
+		data, err = os.ReadFile(actual)
+		_ = os.Remove(actual)
 		return
 	case "file-in-tx":
 		err = w.Z.Db.View(func(tx *bbolt.Tx) error {
@@ -249,6 +262,7 @@ func runC17(c c17Case) kit.Result {
 		}
 	}
 	res.NonTrivial = changed && len(modelAtSnapshot.Ents["things"])+len(modelAtSnapshot.Ents["targets"]) > 0
+	snapFile := filepath.Join(w.Z.Dir, "received.snapshot")
 	// restore
 	func() {
 		defer func() {
@@ -261,6 +275,24 @@ func runC17(c c17Case) kit.Result {
 			w.Z.Db.RestoreSnapshot(data)
 		case "reader":
 			w.Z.Db.RestoreFromReader(bytes.NewReader(data))
+		case "reader-after-header":
+			// the snapshot sits behind a header in its container: the reader is positioned at the snapshot's first byte
+			r := bytes.NewReader(append([]byte("HDR-0001"), data...))
+			if _, err := io.ReadFull(r, make([]byte, 8)); err != nil {
+				panic(err)
+			}
+			w.Z.Db.RestoreFromReader(r)
+		case "os-file":
+			// the snapshot is a file next to the database; it is opened and handed over as it is
+			if err := os.WriteFile(snapFile, data, 0600); err != nil {
+				panic(err)
+			}
+			f, err := os.Open(snapFile)
+			if err != nil {
+				panic(err)
+			}
+			w.Z.Db.RestoreFromReader(f)
+			_ = f.Close()
 		default:
 			// a reader that hands over its last bytes together with io.EOF (as decompressors and HTTP bodies do)
 			w.Z.Db.RestoreFromReader(iotest.DataErrReader(bytes.NewReader(data)))
@@ -375,6 +407,13 @@ func runC17(c c17Case) kit.Result {
 	if err := w.CheckAll(m); err != nil {
 		res.Err = fmt.Errorf("after replaying on the restored database: %v", err)
 		return res
+	}
+	if c.RestoreMode == "os-file" {
+		// the snapshot file is still the snapshot, whatever the database did since it was restored from it
+		if now, err := os.ReadFile(snapFile); err != nil || !bytes.Equal(now, data) {
+			res.Err = fmt.Errorf("the snapshot file handed to RestoreFromReader no longer holds the snapshot after later transactions on the restored database (read error: %v, %d bytes then, %d now)", err, len(data), len(now))
+			return res
+		}
 	}
 	// a second snapshot / restore cycle on a database that has itself been restored; the snapshot id is
 	// requested while the new snapshot is still streaming in
